@@ -1,6 +1,3 @@
 package main
 
-func (e *Engine) schemaContract(key string) *Contract { return nil }
-func (e *Engine) checkProperty(prop string, o runOpts) int { return 2 }
-func (e *Engine) replayFile(path string) int { return 2 }
 func (e *Engine) selftest(o runOpts) int { return 2 }
